@@ -43,43 +43,12 @@ theorem C06_merge {S : Type} (add : S → S → S) (le : S → S → Prop)
     (out.res.map (·.id)).Nodup ∧
     (∀ id, id ∈ out.res.map (·.id) ↔ id ∈ out.set ∧ id ∈ all.map (·.id)) ∧
     (∀ r ∈ out.res, some r.hybrid = sumLeft add (contribs all r.id)) ∧
-    (subs.length ≠ 1 → out.res.Pairwise (fun a b => le b.hybrid a.hybrid)) := by
-  intro out all
-  by_cases hlen : subs.length = 1
-  · obtain ⟨one, rfl⟩ : ∃ one, subs = [one] := by
-      cases subs with
-      | nil => simp at hlen
-      | cons a rest => cases rest with
-        | nil => exact ⟨a, rfl⟩
-        | cons b r => simp at hlen
-    have hout : out = one := rfl
-    have hall : all = one.res := by simp [all]
-    have hw := hwf one (by simp)
-    have hn := hnd one (by simp)
-    rw [hout, hall]
-    refine ⟨?_, hn, ?_, ?_, fun h => absurd rfl h⟩
-    · intro id; cases isOr <;> simp
-    · intro id
-      constructor
-      · intro h
-        obtain ⟨r, hr, rfl⟩ := List.mem_map.mp h
-        exact ⟨hw r hr, h⟩
-      · exact fun h => h.2
-    · intro r hr
-      rw [contribs_nodup hn hr]; rfl
-  · obtain ⟨h1, h2, h3, h4, h5⟩ := merge_many add le sorter hperm hsorted isOr subs hlen hwf
-    exact ⟨h1, h2, h3, h4, fun _ => h5⟩
+    (subs.length ≠ 1 → out.res.Pairwise (fun a b => le b.hybrid a.hybrid)) :=
+  merge_any add le sorter hperm hsorted isOr subs hwf hnd
 
 /-- a single sub-query is passed through untouched -/
 theorem C06_merge_single {S : Type} (add : S → S → S) (sorter : List (Res S) → List (Res S)) (isOr : Bool)
     (one : SubResult S) : searchParallel add sorter isOr [one] = one := rfl
-
-/-- the order the documentation asks of two rows, the first standing before the second: ranked rows
-highest hybrid score first, and no unranked row before a ranked one -/
-def rankRel {S : Type} (le : S → S → Prop) : Option S → Option S → Prop
-  | some x, some y => le y x
-  | none, some _ => False
-  | _, none => True
 
 /-- `C06_rank_order`.  Whatever the index search returned — a plain ranking query, a composite with
 ONE sub-query, with many, any weights (negative ones included), any nesting — a request without
@@ -95,29 +64,12 @@ theorem C06_rank_order {S : Type} (le : S → S → Prop) (docOf : Id → Doc)
     (h : searchPoints docOf rankSorter sorter repaired r rq = .rows p) :
     p.Pairwise (fun a b => rankRel le a.hybrid b.hybrid) := by
   unfold searchPoints at h
-  generalize hf : (fun (e : Entry S) => (shape rq (docOf e.id)).map (fun d => (⟨e.id, e.hybrid, d⟩ : Row S))) = f at h
-  have hfh : ∀ e row, f e = .ok row → row.hybrid = e.hybrid := by
-    intro e row he
-    subst hf
-    simp only at he
-    cases hsh : shape rq (docOf e.id) with
-    | error _ => simp [hsh, Except.map] at he
-    | ok d => simp only [hsh, Except.map, Except.ok.injEq] at he; subst he; rfl
-  cases hm : mapExcept f (backfill ⟨r.set, rankSorter r.res⟩) with
-  | error e => simp [hm] at h
+  cases hfull : fullRows docOf rankSorter sorter r rq with
+  | error e => simp [hfull] at h
   | ok rows =>
-    simp only [hm, hs, List.isEmpty_nil, if_true] at h
-    have hrows : rows.Pairwise (fun a b => rankRel le a.hybrid b.hybrid) := by
-      have hb : (backfill ⟨r.set, rankSorter r.res⟩).Pairwise (fun a b => rankRel le a.hybrid b.hybrid) := by
-        unfold backfill
-        rw [List.pairwise_append]
-        refine ⟨?_, ?_, ?_⟩
-        · rw [List.pairwise_map]; exact (hsorted r.res).imp (fun h => h)
-        · rw [List.pairwise_map]; exact List.pairwise_of_forall (fun _ _ => trivial)
-        · intro a ha b hb'
-          obtain ⟨_, _, rfl⟩ := List.mem_map.mp hb'
-          cases a.hybrid <;> trivial
-      exact mapExcept_pairwise f (·.hybrid) (·.hybrid) (rankRel le) hfh _ _ hm hb
+    have hrows : rows.Pairwise (fun a b => rankRel le a.hybrid b.hybrid) :=
+      fullRows_rank_pairwise le docOf rankSorter hsorted sorter r rq hs rows hfull
+    simp only [hfull] at h
     have hsub : p.Sublist rows := by
       cases repaired
       · simp only [Bool.false_eq_true, if_false] at h
@@ -337,7 +289,7 @@ theorem C06_select_total {S : Type} (rq : Request) (hne : ∀ p ∈ rq.select, p
       · exact ⟨d, rfl⟩
   refine ⟨hshape, ?_⟩
   intro docOf rankSorter sorter repaired r
-  unfold searchPoints
+  unfold searchPoints fullRows
   obtain ⟨rows, hrows, _⟩ := mapExcept_ok
     (fun (e : Entry S) => (shape rq (docOf e.id)).map (fun d => (⟨e.id, e.hybrid, d⟩ : Row S)))
     (backfill ⟨r.set, rankSorter r.res⟩)
@@ -535,6 +487,118 @@ theorem C06_page_repaired {α : Type} (l : List α) (off lim : Nat)
       = ((min (off + lim') l.length : Nat) : Int) := by omega
   rw [h2, wrap64_id (by omega) (by omega), slice_eq l _ _ (by omega) (by omega), ← take_drop_min]
 
+/-! ### the whole answer -/
+
+/-- the page an answer consists of -/
+def outcomePage {S : Type} : Outcome S → Option (List (Row S))
+  | .rows p => some p
+  | _ => none
+
+/-- `C06_tree`.  For every query tree — any depth, any number of sub-queries per composite (none and
+exactly one included), any hybrid scores — whose leaves are well formed, `indexManager.Search` returns:
+a well-formed result (ranked ids in the id set, each once); the documented id set (`inSetB`: union for
+`_or`, intersection for `_and`); and for every point the documented hybrid score (`hybridSpec`: the
+nested sum, in sub-query order, of the contributions of the sub-queries that rank it; not ranked where
+no sub-query ranks it or the point is outside the composite's set). -/
+theorem C06_tree {S : Type} (add : S → S → S) (le : S → S → Prop) (sorter : List (Res S) → List (Res S))
+    (hperm : ∀ l, (sorter l).Perm l) (hsorted : ∀ l, (sorter l).Pairwise (fun a b => le b.hybrid a.hybrid))
+    (t : QTree S) (h : leavesWF t) :
+    let out := evalTree add sorter t
+    (∀ x ∈ out.res, x.id ∈ out.set) ∧ (out.res.map (·.id)).Nodup ∧
+    (∀ id, id ∈ out.set ↔ inSetB t id = true) ∧
+    (∀ id, hybridOf out.res id = hybridSpec add t id) ∧
+    (∀ x ∈ out.res, hybridSpec add t x.id = some x.hybrid) := by
+  intro out
+  obtain ⟨⟨w1, w2⟩, hset, hhyb⟩ := evalTree_ok add le sorter hperm hsorted t h
+  exact ⟨w1, w2, hset, hhyb, fun x hx => by rw [← hhyb x.id]; exact hybridOf_of_mem w2 hx⟩
+
+/-- `C06_answer`.  The whole answer of `Shard.SearchPoints` before the offset / limit slice, for every
+query tree with well-formed leaves, every select list and every sort list:
+
+* each point of the documented id set exactly once, nothing else;
+* each row carries the documented hybrid score (`none` = matched by filters only) and exactly the
+  selected data of its stored document;
+* without sort keys: ranked rows first, highest hybrid score first, filter-only rows after them;
+  with sort keys: ordered by the multi-key comparator (`C06_missing_last`, `C06_sort_numeric` say what
+  that means). -/
+theorem C06_answer {S : Type} (add : S → S → S) (le : S → S → Prop) (sorter : List (Res S) → List (Res S))
+    (hperm : ∀ l, (sorter l).Perm l) (hsorted : ∀ l, (sorter l).Pairwise (fun a b => le b.hybrid a.hybrid))
+    (rankSorter : List (Res S) → List (Res S))
+    (hrperm : ∀ l, (rankSorter l).Perm l) (hrsorted : ∀ l, (rankSorter l).Pairwise (fun a b => le b.hybrid a.hybrid))
+    (rq : Request) (rowSorter : List (Row S) → List (Row S))
+    (hsperm : ∀ l, (rowSorter l).Perm l)
+    (hssorted : ∀ l, (rowSorter l).Pairwise (fun a b => sortCmp rq.sort a.data b.data ≤ 0))
+    (docOf : Id → Doc) (hne : ∀ p ∈ rq.select, p ≠ [])
+    (t : QTree S) (h : leavesWF t) :
+    ∃ rows, fullRows docOf rankSorter rowSorter (evalTree add sorter t) rq = .ok rows ∧
+      (rows.map (·.id)).Nodup ∧ (∀ id, id ∈ rows.map (·.id) ↔ inSetB t id = true) ∧
+      (∀ row ∈ rows, row.hybrid = hybridSpec add t row.id ∧ shape rq (docOf row.id) = .ok row.data) ∧
+      (rq.sort = [] → rows.Pairwise (fun a b => rankRel le a.hybrid b.hybrid)) ∧
+      (rq.sort ≠ [] → rows.Pairwise (fun a b => sortCmp rq.sort a.data b.data ≤ 0)) := by
+  obtain ⟨w1, w2, hset, hhyb, _⟩ := C06_tree add le sorter hperm hsorted t h
+  generalize evalTree add sorter t = o at *
+  have hp := hrperm o.res
+  have hn : ((rankSorter o.res).map (·.id)).Nodup := ((hp.map (·.id)).nodup_iff).mpr w2
+  have hwf : ∀ x ∈ rankSorter o.res, x.id ∈ o.set := fun x hx => w1 x (hp.mem_iff.mp hx)
+  obtain ⟨unranked, hB, _, hun, hBmem, hBnd⟩ := C06_backfill (⟨o.set, rankSorter o.res⟩ : SubResult S) hn hwf
+  generalize hBdef : backfill (⟨o.set, rankSorter o.res⟩ : SubResult S) = B at *
+  -- every back-filled entry carries the documented hybrid score
+  have hBh : ∀ e ∈ B, e.hybrid = hybridSpec add t e.id := by
+    intro e he
+    rw [hB] at he
+    rcases List.mem_append.mp he with he | he
+    · obtain ⟨x, hx, rfl⟩ := List.mem_map.mp he
+      show some x.hybrid = hybridSpec add t x.id
+      rw [← hhyb x.id, ← hybridOf_perm hp w2 x.id, hybridOf_of_mem hn hx]
+    · obtain ⟨id, hid, rfl⟩ := List.mem_map.mp he
+      show none = hybridSpec add t id
+      have hnot : id ∉ (rankSorter o.res).map (·.id) := ((hun id).mp hid).2
+      rw [← hhyb id, ← hybridOf_perm hp w2 id, (hybridOf_none_of_not_mem hnot).1]
+  obtain ⟨hshape, _⟩ := C06_select_total (S := S) rq hne
+  obtain ⟨rows0, hrows0, _⟩ := mapExcept_ok
+    (fun (e : Entry S) => (shape rq (docOf e.id)).map (fun d => (⟨e.id, e.hybrid, d⟩ : Row S))) B
+    (fun e _ => by obtain ⟨m, hm⟩ := hshape (docOf e.id); exact ⟨⟨e.id, e.hybrid, m⟩, by show Except.map _ _ = _; rw [hm]; rfl⟩)
+  have hids : rows0.map (·.id) = B.map (·.id) :=
+    mapExcept_map _ (·.id) (·.id) (fun e row he => (row_of_entry docOf rq e row he).1) B rows0 hrows0
+  have hrow0 : ∀ row ∈ rows0, row.hybrid = hybridSpec add t row.id ∧ shape rq (docOf row.id) = .ok row.data := by
+    intro row hr
+    obtain ⟨e, he, hfe⟩ := mapExcept_mem _ B rows0 hrows0 row hr
+    obtain ⟨h1, h2, h3⟩ := row_of_entry docOf rq e row hfe
+    exact ⟨by rw [h2, h1]; exact hBh e he, by rw [h1]; exact h3⟩
+  have hfull : fullRows docOf rankSorter rowSorter o rq = .ok (if rq.sort.isEmpty then rows0 else rowSorter rows0) := by
+    unfold fullRows
+    rw [hBdef, hrows0]
+  by_cases hs : rq.sort = []
+  · refine ⟨rows0, by rw [hfull]; simp [hs], ?_, ?_, hrow0, ?_, fun h => absurd hs h⟩
+    · rw [hids]; exact hBnd
+    · intro id; rw [hids, hBmem id]; exact hset id
+    · intro _
+      exact fullRows_rank_pairwise le docOf rankSorter hrsorted rowSorter o rq hs rows0 (by rw [hfull]; simp [hs])
+  · have hse : rq.sort.isEmpty = false := by
+      cases hq : rq.sort with
+      | nil => exact absurd hq hs
+      | cons a l => rfl
+    have hperm' := hsperm rows0
+    refine ⟨rowSorter rows0, by rw [hfull]; simp [hse], ?_, ?_, ?_, fun h => absurd h hs, fun _ => hssorted rows0⟩
+    · rw [((hperm'.map (·.id)).nodup_iff), hids]; exact hBnd
+    · intro id; rw [((hperm'.map (·.id)).mem_iff), hids, hBmem id]; exact hset id
+    · intro row hr; exact hrow0 row (hperm'.mem_iff.mp hr)
+
+/-- and the request returns the page `[offset, offset + limit)` of that answer (all of it from `offset`
+on when `limit = 0`) — repaired slice expression, no overflow hypothesis -/
+theorem C06_search_page {S : Type} (docOf : Id → Doc) (rankSorter : List (Res S) → List (Res S))
+    (rowSorter : List (Row S) → List (Row S)) (r : SubResult S) (rq : Request) (rows : List (Row S))
+    (hfull : fullRows docOf rankSorter rowSorter r rq = .ok rows)
+    (off lim : Nat) (ho : rq.off = off) (hl : rq.lim = lim)
+    (hoff : off < 2 ^ 63) (hlim : lim < 2 ^ 63) (hlen : rows.length < 2 ^ 63) :
+    outcomePage (searchPoints docOf rankSorter rowSorter true r rq)
+      = some ((rows.drop off).take (if lim = 0 then rows.length else lim)) := by
+  unfold searchPoints
+  rw [hfull]
+  simp only [if_true, ho, hl, C06_page_repaired rows off lim hoff hlim hlen]
+  rfl
+
+
 /-! ### non-vacuity -/
 
 /-- three sub-queries, overlapping results, a negative and a zero contribution, `_and` dropping a result -/
@@ -596,5 +660,30 @@ example : [exDoc, [("n", .int 16 400)], [("q", .nil)]].Pairwise
     (fun a b => sortCmp [⟨["n"], false⟩, ⟨["a", "b"], true⟩] a b ≤ 0) := by decide
 
 example : (5 : Nat) + (if (3 : Nat) = 0 then [1, 2, 3, 4, 5, 6, 7].length else 3) < 2 ^ 63 := by decide
+
+/-- a query tree of depth 2: `_and [ _or [ranked, ranked(negative), filter], _or [ranked] (a single
+sub-query), filter ]` with overlapping results -/
+def exTree : QTree Int :=
+  .node false (.cons (.node true (.cons (.leaf ⟨[1, 2, 3], [⟨1, 5⟩, ⟨2, -3⟩, ⟨3, 0⟩]⟩)
+      (.cons (.leaf ⟨[2, 3, 4], [⟨3, -7⟩, ⟨2, 1⟩]⟩) (.cons (.leaf ⟨[9], []⟩) .nil))))
+    (.cons (.node true (.cons (.leaf ⟨[1, 2, 4, 9], [⟨2, -1⟩, ⟨4, 2⟩]⟩) .nil))
+    (.cons (.leaf ⟨[1, 2, 4, 5, 9], []⟩) .nil)))
+
+/-- the hypothesis of `C06_tree` / `C06_answer`, and what they conclude, computed: id set, hybrid
+scores as nested sums `((−3) + 1) + (−1)`, point 1 ranked by the first sub-query only, point 9 by none -/
+example : leavesWF exTree := by simp [exTree, leavesWF, forestWF]
+
+example : (evalTree (· + ·) exSortRes exTree).set = [1, 2, 4, 9] ∧
+    ((evalTree (· + ·) exSortRes exTree).res.map (fun r => (r.id, r.hybrid))) = [(1, 5), (4, 2), (2, -3)] ∧
+    [1, 2, 3, 4, 5, 9].map (inSetB exTree) = [true, true, false, true, false, true] ∧
+    [1, 2, 3, 4, 9].map (hybridSpec (· + ·) exTree) = [some 5, some (-3), none, some 2, none] := by decide
+
+/-- the sorter hypotheses of `C06_answer` are satisfiable: insertion sorts (`C06_rank_sorter_exists`,
+`C06_sort_exists`) -/
+example (opts : List SortOpt) : ∃ rowSorter : List (Row Int) → List (Row Int), (∀ l, (rowSorter l).Perm l) ∧
+    ∀ l, (rowSorter l).Pairwise (fun a b => sortCmp opts a.data b.data ≤ 0) :=
+  ⟨isort (fun a b => sortCmp opts a.data b.data), fun l => isort_perm _ l, fun l =>
+    isort_sorted (c := fun (a b : Row Int) => sortCmp opts a.data b.data)
+      ⟨fun a b => (tpc_sortCmp opts).antisymm _ _, fun a b d => (tpc_sortCmp opts).trans _ _ _⟩ l⟩
 
 end Sema.C06
